@@ -88,7 +88,63 @@ def do_detect(sid, checks):
     return 0
 
 
+ALL = ["C01", "C02", "C03", "C04", "C05", "C06", "C07", "C08", "C09", "C10", "C11", "C12", "C13", "C16", "C17", "C18", "C19"]
+
+
+def matrix_one(sid, checks=None, procs="6"):
+    """Detection matrix for one seed in its own scratch worktree (FORMAK_REPO), so that several can run in parallel."""
+    d = os.path.join(VERIF, "seeded", sid)
+    meta = json.load(open(os.path.join(d, "meta.json")))
+    wt = f"/tmp/wt-seed-{sid}"
+    ev = f"/tmp/ev-seed-{sid}"
+    sh(f"git -C {REPO} worktree remove --force {wt}")
+    assert sh(f"git -C {REPO} worktree add -q --detach {wt} HEAD").returncode == 0
+    res = {}
+    try:
+        ap = sh(f"git -C {wt} apply {d}/patch.diff")
+        assert ap.returncode == 0, ap.stderr
+        os.makedirs(ev, exist_ok=True)
+        env = dict(os.environ, FORMAK_REPO=wt, VERIF_EVIDENCE_DIR=ev, VERIF_PROCS=procs)
+        for c in checks or ALL:
+            t0 = time.time()
+            try:
+                r = subprocess.run([os.path.join(VERIF, "bin/check"), c, "--tier", "quick"], capture_output=True, text=True, cwd=VERIF, timeout=2400, env=env)
+                viol = [l for l in r.stdout.splitlines() if l.startswith("VIOLATION")]
+                what = [l.strip() for l in r.stdout.splitlines() if l.strip().startswith("what:")]
+                res[c] = {"rc": r.returncode, "violations": len(viol), "first": what[0][:240] if what else "", "wall_s": round(time.time() - t0, 1)}
+            except subprocess.TimeoutExpired:
+                res[c] = {"rc": "timeout", "violations": 0, "first": "", "wall_s": round(time.time() - t0, 1)}
+            print(f"{sid} vs {c}: {res[c]['rc']} {res[c]['violations']} {res[c]['first'][:120]}", flush=True)
+    finally:
+        sh(f"git -C {REPO} worktree remove --force {wt}")
+        shutil.rmtree(ev, ignore_errors=True)
+    meta["detected_by"] = res
+    meta["detection_run"] = {"base": sh(f"git -C {REPO} rev-parse --short HEAD").stdout.strip(), "verif": sh(f"git -C {VERIF} rev-parse --short HEAD").stdout.strip(), "how": "scratch worktree of /repo HEAD with the patch applied; every check's quick tier run with FORMAK_REPO pointing at it"}
+    json.dump(meta, open(os.path.join(d, "meta.json"), "w"), indent=1)
+    return 0
+
+
+def table():
+    rows = []
+    for sid in sorted(os.listdir(os.path.join(VERIF, "seeded"))):
+        mp = os.path.join(VERIF, "seeded", sid, "meta.json")
+        if not os.path.exists(mp):
+            continue
+        m = json.load(open(mp))
+        det = m.get("detected_by", {})
+        hit = [c for c, v in det.items() if v.get("rc") == 1]
+        err = [c for c, v in det.items() if v.get("rc") not in (0, 1)]
+        rows.append(f"| {sid} | {m.get('summary', '')[:150].replace('|', '/')} | {m.get('needs', '')[:120].replace('|', '/')} | {', '.join(hit) or '**none**'} | {', '.join(err)} |")
+    print("| seed | change | needs | caught by (quick tier) | harness error |\n|---|---|---|---|---|")
+    print("\n".join(rows))
+
+
 if __name__ == "__main__":
+    if sys.argv[1] == "matrix":
+        sys.exit(matrix_one(sys.argv[2], sys.argv[3:] or None))
+    if sys.argv[1] == "table":
+        table()
+        sys.exit(0)
     if sys.argv[1] == "import":
         sys.exit(do_import(sys.argv[2], sys.argv[3], sys.argv[4]))
     if sys.argv[1] == "detect":
